@@ -8,7 +8,7 @@ FastaIndex(path).auto_load(); it must raise or show exactly that.
 
 (a) histories over {rewrite FASTA, delete .fai, delete .agp, auto-load} on a logical clock that advances by
     0 or 1 between operations (so "cache mtime == FASTA mtime" occurs); every file written by an operation gets the
-    logical time of that operation through os.utime.
+    logical time of that operation through os.utime (whole seconds here; fractions of a second: (h)).
 (b) crash points: the indexing run happens in a forked child whose file operations (open, every raw write that
     reaches the OS, close, rename, unlink, stat) are counted through wrappers around builtins.open / io.open /
     os.replace / ...; the child is killed with os._exit before operation k, for every k.  Buffered data that has not
@@ -24,7 +24,19 @@ FastaIndex(path).auto_load(); it must raise or show exactly that.
     size in bytes (other names, lengths, offsets, gaps), delete the cache, auto-load on a new object, auto-load on one
     long-lived object, run_indexing() on a new object, run_indexing() on the long-lived object}; every result is judged
     against the FASTA bytes, so state carried from one indexing run to the next inside the process shows.
-After (a), (d) and (e) the cache files themselves are read with this module's own parsers: if both exist and are strictly
+(h) time stamps with fractions of a second (every current file system has them; "strictly newer" is a statement about the
+    time stamps as they are, not about whole seconds): histories as in (a) on a clock that runs in ms (also us, ns), starts at
+    a fraction of a second and advances by 0 / 400 / 700 units, every time stamp set to the nanosecond with os.utime(ns=...).
+    A cache written a fraction of a second BEFORE the rewrite of the FASTA (same clock second, first or second half) or at
+    the very same instant is not strictly newer: it must be rebuilt, and the load must show the new content.  Three such
+    cache states (stale-same-second, stale-same-instant, valid-same-second) also go through the complete runs of (f).
+(i) FASTA contents with records that have no residues (header line only: first / middle / last record, two in a row, all
+    records, the only record).  Such a record has a row of length 0 in the .fai and no line in the .agp, yet the assembly of
+    the content has a scaffold (without rows) for it, in file order: histories as in (a), (e), (g) over these contents, and
+    the complete runs of (f), crash points (b) and injections (d) on one of them; index AND assembly of every load, from the
+    cache or not, must be those of the current content.  When the .agp on disk is judged with this module's own reader it is
+    compared with the scaffolds that have rows.
+After (a), (d), (e), (h) and (i) the cache files themselves are read with this module's own parsers: if both exist and are strictly
 newer than the FASTA (what any later process will take as valid) they must describe the FASTA bytes.
 
 Layouts.  The path handed to FastaIndex, and the cache files found next to it, need not be regular files: data staged by a
@@ -905,9 +917,9 @@ SCENARIO_LAYOUTS = ("plain", "fasta-link", "cache-links", "all-links")
 
 
 CLOSE_WORDS = {
-    "stale-same-second": " (cache files of the previous content, written 0.4 s BEFORE the FASTA within the same clock second)",
+    "stale-same-second": " (cache files of the previous content, written 0.2 s BEFORE the FASTA within the same clock second, both in its first half)",
     "stale-same-instant": " (cache files of the previous content with exactly the FASTA's time stamp, which has a fraction of a second)",
-    "valid-same-second": " (cache files of the current content, written 0.3 s after the FASTA within the same clock second)",
+    "valid-same-second": " (cache files of the current content, written 0.5 s after the FASTA within the same clock second)",
 }
 
 
@@ -924,16 +936,17 @@ def setup_scenario(d, scenario, big, layout="plain"):
     """
     returns (fasta path, current bytes).  Times: links to the FASTA made 3000 s ago, stale cache written 2000 s ago, FASTA
     written 1000 s ago, cache of the current content written 500 s ago, links to cache files made 100 s ago.
-    In the scenarios of CLOSE_SCENARIOS the FASTA is written 0.6 s after a full second S (about 1000 s ago) and the cache
-    files hold the previous content, written at S + 0.2 s (stale-same-second) or at the very same S + 0.6 s
+    In the scenarios of CLOSE_SCENARIOS the FASTA is written 0.4 s after a full second S (about 1000 s ago) and the cache
+    files hold the previous content, written at S + 0.2 s (stale-same-second) or at the very same S + 0.4 s
     (stale-same-instant), or the current content, written at S + 0.9 s (valid-same-second).
     big: False / True (make_fasta) or "empty" (small contents with records without residues).
     """
-    old, cur = make_fasta(3, big), make_fasta(4, big)
+    # records without residues: the current content has two of them in a row between others, the previous one the first and last
+    old, cur = (make_fasta_empty(6), make_fasta_empty(3)) if big == "empty" else (make_fasta(3, big), make_fasta(4, big))
     now = time.time()
     fasta_layout = {"plain": "plain", "cache-links": "plain", "fasta-link": "link", "all-links": "chain"}[layout]
     second = (int(now) - 1000) * 10**9
-    fasta_time = second + 600_000_000 if scenario in CLOSE_SCENARIOS else now - 1000
+    fasta_time = second + 400_000_000 if scenario in CLOSE_SCENARIOS else now - 1000
     fa, _ = place_fasta(d, fasta_layout, cur, fasta_time)
     if fasta_layout != "plain":
         for p in (fa, os.path.join(d, "staged", "asm.fa")):
@@ -947,7 +960,7 @@ def setup_scenario(d, scenario, big, layout="plain"):
         when = now - 500
     elif scenario in CLOSE_SCENARIOS:
         fai, agp = cache_texts(cur if scenario == "valid-same-second" else old)
-        when = second + {"stale-same-second": 200_000_000, "stale-same-instant": 600_000_000, "valid-same-second": 900_000_000}[scenario]
+        when = second + {"stale-same-second": 200_000_000, "stale-same-instant": 400_000_000, "valid-same-second": 900_000_000}[scenario]
     else:
         return fa, cur
     for ext, text, missing in ((".fai", fai, "fai-missing"), (".agp", agp, "agp-missing")):
@@ -1410,6 +1423,17 @@ def run(tier, seed, **opts):
         "(b) and (d) are repeated on the small input with symbolic links ("
         + ("all-links layout, 2 cache states" if quick else "3 link layouts x 5 cache states, and the big input in the all-links layout") + "), "
         "and (b) with TMPDIR elsewhere whenever the file operations of a run depend on TMPDIR; "
+        "(h) time stamps with fractions of a second, set to the nanosecond: "
+        + ("11 histories (cache written 0.2-0.4 s before / at the same instant as / across a full second from the rewrite of the FASTA; clock in ms, us, ns)" if quick else
+           "all histories of <= 4 operations as in (a) with ticks 0 / 400 / 700 ms from T0+200 ms, of <= 3 operations from T0+0 / 600 / 999 ms, in us and ns, and with the FASTA "
+           "path a link / chain, plus 300 seeded random ones (4-8 operations, incl. staging, ticks 0 / 1 / 300 / 400 / 700 / 1000 units)")
+        + ", and 3 cache states with the cache a fraction of a second older / equal / newer than the FASTA in (f)"
+        + ("" if quick else " and (b)") + "; "
+        "(i) FASTA contents with records without residues (8 patterns: first / middle / last / two in a row / all / only record): "
+        + ("[auto-load, auto-load] from each pattern and 5 longer histories" if quick else
+           "all histories of <= 3 operations as in (a) from each pattern and of <= 4 from the first, histories with links and staging, one-process "
+           "histories with long-lived objects and run_indexing(), 200 seeded random ones; crash points (b) and injections (d) on such a content")
+        + ", and such a content in the complete runs of (f): index and assembly (a scaffold without rows per such record, in file order) must be those of the content; "
         "non-trivial = distinct histories / crash points / injection points / schedules / complete runs",
         max_samples=8,
     )
